@@ -56,10 +56,10 @@ Definition keys_intersect (v1 m1 v2 m2 : Z) : Prop :=
 Definition complete (t : tree) (fv : fvals) : Prop :=
   forall i f, In (i, f) (enabled_fields t fv) -> zassoc i fv <> None.
 
-(* an instance's values are usable: every named field is enabled and its value fits the field *)
+(* an instance's values are usable: the value of every enabled field fits the field's length *)
 Definition values_fit (t : tree) (s : list field) (fv : fvals) : Prop :=
-  forall i v, zassoc i fv = Some v ->
-    exists f l, get_field t i fv = Some f /\ f_len (sget s f) = Some l /\ 0 <= v < 2 ^ l.
+  forall i f x, In (i, f) (enabled_fields t fv) -> zassoc i fv = Some x ->
+    exists st l, frange s f = Some (st, l) /\ 0 <= x < 2 ^ l.
 
 (* ------------------------------------------------------------------ the flat view *)
 (* every field with the requirements accumulated on the way down to its node *)
@@ -90,6 +90,18 @@ Definition tags_closed (t : tree) (s : list field) : Prop :=
   forall e e' tg, In e (flat t []) -> In e' (flat t []) -> depends_on e e' = true ->
     In tg (f_tags (sget s (e_fid e))) -> In tg (f_tags (sget s (e_fid e'))).
 
+(* every _Field object hangs in the tree once *)
+Definition fids_unique (t : tree) : Prop := NoDup (map e_fid (flat t [])).
+
+(* the requirement tuple of a child only names fields of its parent node *)
+Fixpoint keys_local (t : tree) : bool :=
+  match t with
+  | Node fs cs =>
+      forallb (fun rc => match rc with
+                         | (req, c) => forallb (fun iv => has_ident (fst iv) fs) req && keys_local c
+                         end) cs
+  end.
+
 (* ------------------------------------------------------------------ the checker *)
 Fixpoint nodupb (l : list nat) : bool :=
   match l with
@@ -115,6 +127,7 @@ Definition subsetb (a b : list Z) : bool := forallb (fun x => existsb (Z.eqb x) 
 Definition check_bitfield (L : Z) (t : tree) (s : list field) : bool :=
   let es := flat t [] in
   nodupb (map e_fid es)
+  && keys_local t
   && forallb (fun e => Nat.ltb (e_fid e) (length s) && placedb L s (e_fid e)) es
   && forallb (fun e1 => forallb (fun e2 =>
         Nat.eqb (e_fid e1) (e_fid e2) || negb (compatb (e_path e1) (e_path e2))
